@@ -217,8 +217,21 @@ def run(prop, a):
     traces, meta = [], []
     refused = Counter()
     t0 = time.time()
+    # a systematic block first: every (solver kind x range mode x constraint) combination with everything installed
+    # before the first Step, on a box that the optimum may leave; the rest of the budget is random configurations
+    grid = [(k, tc, cn) for k in ("DE", "DE2", "NM", "PW")
+            for tc in ((None, None), (True, None), (False, None), (True, True), (None, True), (True, False))
+            for cn in ("none", "pin", "clamp", "round", "tie", "symbolic")]
+    rng.shuffle(grid)
+    ngrid = 0 if light else (len(grid) * 3 if thorough else len(grid))
     for i in range(nruns):
         cfg = _fix(rand_cfg(rng))
+        if i < ngrid:
+            k, tc, cn = grid[i % len(grid)]
+            cfg.update(kind=k, tight=tc[0], clip=tc[1], cons=cn, cons_at=0, box_at=0, pen_at=0, box_off_at=None, via="set",
+                       box=("unit", "wide")[(i // len(grid) + i) % 2], dim=max(2, cfg["dim"]))
+            if cfg["cost"] == "infwall":
+                cfg["cost"] = "sphere"
         r = ObjRun(cfg, seed=a.seed * 7919 + i)
         try:
             quiet(r.run_class_api)
